@@ -473,11 +473,30 @@ func runC05(rc *RunCtx, i int) {
 	stopCall := env.clock.Tick()
 	var stopErr error
 	stopDone := make(chan struct{})
+	// a quarter of the histories stop the engine from two goroutines at once, and every history
+	// calls Stop (and Start) once more after it returned: all of them must return nil and change
+	// nothing (no second drain, no answer delivered twice, no panic on an already closed channel)
+	twoStops := i%4 == 1
+	var stopErr2, stopErr3 error
 	go func() {
 		stopRequested.Store(true)
 		time.Sleep(200 * time.Microsecond) // let callers reach the hold points first
+		var swg sync.WaitGroup
+		if twoStops {
+			swg.Add(1)
+			go func() {
+				defer swg.Done()
+				stopErr2 = e.Stop(context.Background())
+			}()
+			rc.Res.Count("histories_with_concurrent_stops", 1)
+		}
 		stopErr = e.Stop(context.Background())
+		swg.Wait()
 		stopReturned.Store(true)
+		e.Start() // no-op on a stopped engine
+		c3, cancel3 := context.WithTimeout(context.Background(), 20*time.Second)
+		stopErr3 = e.Stop(c3)
+		cancel3()
 		close(stopDone)
 	}()
 	verdict := awaitProgress(stopDone)
@@ -502,6 +521,14 @@ func runC05(rc *RunCtx, i int) {
 	}
 	if stopErr != nil {
 		rc.Violate(i, "graceful-stop-failed", "", "Stop(context.Background()) returned "+stopErr.Error(), desc)
+		return
+	}
+	if stopErr2 != nil || stopErr3 != nil {
+		rc.Violate(i, "repeated-stop-failed", "", fmt.Sprintf("a concurrent Stop returned %v and a Stop after Stop returned %v (the first returned nil)", stopErr2, stopErr3), desc)
+		return
+	}
+	if err := e.IngestRows(context.Background(), []map[string]any{{"_vid": "after-stop"}}, nil); !errors.Is(err, bs.ErrEngineStopped) {
+		rc.Violate(i, "accepted-after-stop", "", fmt.Sprintf("IngestRows after Stop (and a Start after Stop) returned %v instead of ErrEngineStopped", err), desc)
 		return
 	}
 	// settle: receivers of unbuffered channels record right after the send completes
